@@ -60,7 +60,7 @@ def decLoop (m : Mapper) : J × List J → List (Item J) → Option (J × List J
 
 /-- `map_attributes` with `attr_prefix = ''` then `attrib.update(...)` (dataobjects.py:538-539) -/
 def decAttrs (m : Mapper) (hd : Hd) : List (String × J) :=
-  dictUpdate [] (hd.attrs.map fun kv => (m.mp kv.1, kv.2))
+  dictUpdate [] (hd.attrs.map fun kv => (m.mpA kv.1, kv.2))
 
 /-- element_decode, dataobjects.py:535-553 (`map_attribute_names=True`, the default) -/
 def dec (m : Mapper) (f : Facts) (hd : Hd) (its : List (Item J)) : J :=
